@@ -18,6 +18,8 @@ def run(ck: Check):
     from explore import oracle_session
     from universe import session_universe
     session_universe(ck, oracle_session, quick=ck.tier == "quick")
+    from scale import big_final_is_last_accepted
+    big_final_is_last_accepted(ck)
     ex.diff()
     return ck.finish(level="proof", rule=RULE, assumptions=[
         "the interestingness test sees only the file, its arguments and the prefix",
